@@ -242,4 +242,21 @@ PROPS = {
         "assumptions": ["after a restart every location is used again at once (an ephemeral cron can only re-register a location when it is loaded)",
                         "with an ephemeral cron a +d schedule counts from the re-registration"],
     },
+    "C12": {
+        "level": "exploration",
+        "build": "instr",
+        "tiers": tiers(3000, 90, 100000, 1200, gomaxprocs=4),
+        "distinct_measure": "distinct (operation list, pre-emption points, number of task switches) triples, i.e. distinct interleavings actually executed",
+        "rule": "2-8 simulated clients issue 1-4 operations each (at most 14 in all) - AddFact/RemFact/GetFact/SearchFacts on 3 shared fact ids with unique values, "
+                "AddRule/RemRule/EnableRule on 2 shared rule ids, ProcessEvent - against one location (indexed or linear state, memory storage behind SimStorage). "
+                "The build is instrumented: every sync lock/unlock, `go` statement and WaitGroup of rulio goes through the simulator runtime, storage calls yield at "
+                "entry and exit, map iteration order comes from the tape (sorted/reversed/shuffled); one task runs at a time and 0-4 pre-emption points drawn from "
+                "the seed (PCT style, placed by a dry run) move the token at lock and storage yield points. The history, stamped with the simulator's event "
+                "sequence numbers and closed by final reads of every id from memory and from storage, is checked with Porcupine against the sequential "
+                "reference model (20 s limit; a time-out is counted as inconclusive, never reported). Deadlock (no runnable task), a task panic and a step "
+                "budget overrun are violations. Non-trivial: the run switched tasks at least once; distinct as in distinct_measure.",
+        "components": {"real": REAL + ["rulio's own goroutines (rule actions) as simulator tasks"], "stub": ["simrt token scheduler (instrumentation of sync/go/WaitGroup/map range by tools/instr)", "SimStorage wrapper with yield points", "JavaScript time-outs switched off (the watchdog's select is not under scheduler control)"]},
+        "assumptions": ["the instrumenter's rewrites preserve behaviour (all other checks run uninstrumented code and agree on the fault-free sequential fragment)",
+                        "data races that do not change any result are outside what this world sees (no race detector in this tier)"],
+    },
 }
